@@ -113,6 +113,11 @@ def run_case(case):
     if got is not None and not close(floatify(T, got), floatify(T, v)):
         F('native-roundtrip', 'value', 'native round trip gives %s, expected %s | py=%s' % (absval.short(got, 120), absval.short(v, 120), absval.short(py, 120)),
           obs={'got': got})
+    if case.get('spell'):
+        # the same tree with ENUMERATED leaves spelled by name - what T.clone() takes, the value-plus-schema path takes as well
+        py2 = respell(T, py)
+        if py2 is not None:
+            py = py2
     for codec in ('BER', 'CER', 'DER'):
         a = lib.encode(codec, py, asn1Spec=sch)
         b = lib.encode(codec, r)
@@ -124,6 +129,31 @@ def run_case(case):
         elif not a.ok and a.status == 'leak':
             F(codec.lower() + '-pyvalue', 'leak', a.brief(), a.sig)
     return fails
+
+
+def respell(T, py):
+    """py with every ENUMERATED leaf given by its name; None when nothing changed."""
+    changed = [False]
+
+    def go(t, x):
+        k = t['k']
+        if k == 'ENUMERATED' and isinstance(x, int) and not isinstance(x, bool):
+            for nm, val in t['named']:
+                if val == x:
+                    changed[0] = True
+                    return nm
+            return x
+        if k in ir.RECORD_KINDS and hasattr(x, 'items'):
+            by = {c['name']: c['t'] for c in t['comps']}
+            return type(x)((n, go(by[n], y) if n in by else y) for n, y in x.items())
+        if k in ir.OF_KINDS and isinstance(x, (list, tuple)):
+            return [go(t['of'], y) for y in x]
+        if k == 'CHOICE' and hasattr(x, 'items'):
+            by = {a['name']: a['t'] for a in t['alts']}
+            return type(x)((n, go(by[n], y) if n in by else y) for n, y in x.items())
+        return x
+    out = go(T, py)
+    return out if changed[0] else None
 
 
 def replay(case):
@@ -141,10 +171,12 @@ def nontrivial(T, v):
 
 def run_shard(desc, seed, tier, col):
     def body(x):
-        T, v, tape = x
+        T, v, tape, spell = x
         case = {'T': T, 'v': v}
         if tape is not None:
             case['tape'] = tape
+        if spell:
+            case['spell'] = True
         feats = ['depth=%d' % ir.depth(T)]
         for t, y in fz.present_nodes(T, v):
             if t['k'] in ir.RECORD_KINDS and any(c['p'] == 'opt' and c['name'] not in y for c in t['comps']):
@@ -175,7 +207,7 @@ def run_shard(desc, seed, tier, col):
                 tape = t.tape
             except Exception:
                 tape = t.tape
-        return T, v, tape
+        return T, v, tape, 'ENUMERATED' in ir.kinds_in(T) and d.pct(50)
 
     harness.run_given(cases(), body, seed, desc['examples'], col)
 
